@@ -2,7 +2,12 @@
 EXTENDS SessionImpl, Json
 NoDev == {}
 AsWas == {"cmn-mode-sticks"}
+DevSums == {"short-reset-keeps-sums"}
+DevBeams == {"beams-not-restored"}
+Thr == {"a2"}
 \* graph export for the tours: the op labels are what matters; the state identity hides `seen'
-TourView == <<st, nops>>
-DumpEdge == PrintT(<<"EDGE", ToJson([f |-> ToString(<<st, nops>>), a |-> last', t |-> ToString(<<st', nops'>>)])>>)
+\* (the CMN history is reduced to how it began and how many utterances it holds, as hidden state is a function of it)
+Red(s) == [i \in Inst |-> IF s[i].alive THEN [s[i] EXCEPT !.cmn = <<s[i].cmn[1], Len(s[i].cmn)>>, !.cmn0 = <<>>] ELSE s[i]]
+TourView == <<Red(st), nops>>
+DumpEdge == PrintT(<<"EDGE", ToJson([f |-> ToString(<<Red(st), nops>>), a |-> last', t |-> ToString(<<Red(st'), nops'>>)])>>)
 ====
